@@ -74,6 +74,9 @@ AuctionDebtHeld(S, d) == SumSeq(S.auctions, LAMBDA a : IF a.debtD = d /\ a.lv \i
 TotalDebt(v) == v.out + v.interest + v.closing
 Unsafe(C, S, v) == LET p == ProdOf(C, v.prod) IN ~CRAtLeast(C, S, p, v.in, TotalDebt(v), p.minCr.num, p.minCr.den)
 Enabled(C, S, v) == ~S.ctl.breaker /\ ~S.ctl.esm /\ PricesActive(C, S, ProdOf(C, v.prod))
+(* the second generation starts its auction from the oracle records of BOTH assets (DutchAuctionActivator), also for a product with a *)
+(* fixed debt price: "prices are active" for the V2 sweep means both                                                                  *)
+EnabledV2(C, S, v) == Enabled(C, S, v) /\ PriceRec(S, ProdOf(C, v.prod).debtD).active
 
 E18 == LMulSmall(LMulSmall(LMulSmall(LOfInt(1000000000), 1000), 1000), 1000)
 RECURSIVE LMulBig(_, _)
